@@ -46,11 +46,23 @@ def is_syn(e: ast.AST, name: str) -> bool:
     return isinstance(e, ast.Call) and isinstance(e.func, ast.Name) and e.func.id == name
 
 
+# callee name -> field names, for functions declared to return a NamedTuple class of the repository (filled by the loader):
+# unpacking such a result (`entities, locations, search = f(...)`) reads as the attribute accesses it stands for
+NT_RETURNS: Dict[str, List[str]] = {}
+
+
 def proj(value: ast.AST, i: int, at: ast.AST) -> ast.AST:
     if isinstance(value, (ast.Tuple, ast.List)) and i < len(value.elts) and not any(
         isinstance(x, ast.Starred) for x in value.elts
     ):
         return value.elts[i]
+    if isinstance(value, ast.Call):
+        nm = value.func.attr if isinstance(value.func, ast.Attribute) else getattr(value.func, "id", None)
+        fields = NT_RETURNS.get(nm or "")
+        if fields and i < len(fields):
+            n = ast.Attribute(value=value, attr=fields[i], ctx=ast.Load())
+            ast.copy_location(n, at)
+            return n
     n = ast.Subscript(value=value, slice=ast.Constant(value=i), ctx=ast.Load())
     ast.copy_location(n, at)
     return n
@@ -558,6 +570,31 @@ def _const_truth(e: ast.AST) -> Optional[bool]:
     if isinstance(e, ast.UnaryOp) and isinstance(e.op, ast.Not):
         t = _const_truth(e.operand)
         return None if t is None else (not t)
+    # a freshly constructed object (`SimulationStateError(...)`, `Failure(...)`, a tuple / f-string) is neither None nor falsy
+    if isinstance(e, ast.Compare) and len(e.ops) == 1 and isinstance(e.ops[0], (ast.Is, ast.IsNot)) and is_none(e.comparators[0]):
+        k = _constructed(e.left)
+        if k is True:
+            return isinstance(e.ops[0], ast.IsNot)
+        if is_none(e.left):
+            return isinstance(e.ops[0], ast.Is)
+    if _constructed(e) is True and isinstance(e, ast.Call):
+        nm = e.func.attr if isinstance(e.func, ast.Attribute) else getattr(e.func, "id", "")
+        if nm.endswith(("Error", "Exception")):
+            return True
+    return None
+
+
+def _constructed(e: ast.AST) -> Optional[bool]:
+    """True when `e` certainly denotes a new (non-None) object: a call of a class by the naming convention (capitalised,
+    no underscore prefix), an f-string, a non-empty tuple / list display."""
+    if isinstance(e, ast.Call):
+        nm = e.func.attr if isinstance(e.func, ast.Attribute) else getattr(e.func, "id", "")
+        if nm[:1].isupper() and nm not in ("Optional",):
+            return True
+    if isinstance(e, (ast.JoinedStr,)):
+        return True
+    if isinstance(e, (ast.Tuple, ast.List)) and e.elts:
+        return True
     return None
 
 
@@ -959,6 +996,39 @@ def canon(e: ast.AST) -> ast.AST:
             if isinstance(inner, ast.GeneratorExp):
                 return ast.copy_location(ast.ListComp(elt=inner.elt, generators=inner.generators), n)
             return ast.copy_location(ast.Call(func=n.func, args=[inner], keywords=[]), n)
+        # append-map folds: reduce(lambda acc, x: (*acc, E), XS, INIT) / acc + (E,)  ==  INIT + tuple(E for x in XS)
+        if isinstance(n, ast.Call) and (isinstance(n.func, ast.Attribute) and n.func.attr == "reduce" or isinstance(n.func, ast.Name) and n.func.id == "reduce") \
+                and len(n.args) == 3 and isinstance(n.args[0], ast.Lambda) and len(n.args[0].args.args) == 2:
+            lam = n.args[0]
+            a_, x_ = lam.args.args[0].arg, lam.args.args[1].arg
+            b = lam.body
+            elt = None
+            if isinstance(b, ast.Tuple) and len(b.elts) == 2 and isinstance(b.elts[0], ast.Starred) and isinstance(b.elts[0].value, ast.Name) and b.elts[0].value.id == a_:
+                elt = b.elts[1]
+            elif isinstance(b, ast.BinOp) and isinstance(b.op, ast.Add) and isinstance(b.left, ast.Name) and b.left.id == a_ and isinstance(b.right, ast.Tuple) and len(b.right.elts) == 1:
+                elt = b.right.elts[0]
+            if elt is not None and not any(isinstance(z, ast.Name) and z.id == a_ for z in ast.walk(elt)):
+                ge = ast.GeneratorExp(elt=elt, generators=[ast.comprehension(target=ast.Name(id=x_, ctx=ast.Store()), iter=n.args[1], ifs=[], is_async=0)])
+                tup = ast.Call(func=ast.Name(id="tuple", ctx=ast.Load()), args=[ge], keywords=[])
+                return go(ast.copy_location(ast.BinOp(left=n.args[2], op=ast.Add(), right=tup), n), depth)
+        # (*A, *B) == A + tuple(B)
+        if isinstance(n, ast.Tuple) and len(n.elts) == 2 and all(isinstance(z, ast.Starred) for z in n.elts):
+            right = n.elts[1].value
+            tup = right if isinstance(right, (ast.Tuple,)) else ast.Call(func=ast.Name(id="tuple", ctx=ast.Load()), args=[right], keywords=[])
+            return go(ast.copy_location(ast.BinOp(left=n.elts[0].value, op=ast.Add(), right=tup), n), depth)
+        if isinstance(n, (ast.GeneratorExp, ast.ListComp, ast.SetComp)) and len(n.generators) == 1 and isinstance(n.generators[0].target, ast.Tuple) \
+                and all(isinstance(z, ast.Name) for z in n.generators[0].target.elts):
+            # `for a, b in XS` -> one variable with a = v[0], b = v[1]
+            g0 = n.generators[0]
+            tmp = "_t"
+            sub = {z.id: ast.Subscript(value=ast.Name(id=tmp, ctx=ast.Load()), slice=ast.Constant(value=i_), ctx=ast.Load()) for i_, z in enumerate(g0.target.elts)}
+
+            def f2(z):
+                if isinstance(z, ast.Name) and isinstance(z.ctx, ast.Load) and z.id in sub:
+                    return sub[z.id]
+                return z
+            n = ast.copy_location(type(n)(elt=rewrite(n.elt, f2), generators=[ast.comprehension(target=ast.Name(id=tmp, ctx=ast.Store()), iter=g0.iter,
+                                                                                                   ifs=[rewrite(c, f2) for c in g0.ifs], is_async=g0.is_async)]), n)
         if isinstance(n, (ast.GeneratorExp, ast.ListComp, ast.SetComp)) and len(n.generators) == 1 and isinstance(n.generators[0].target, ast.Name):
             g = n.generators[0]
             new = f"_{depth}"
